@@ -43,9 +43,19 @@ func expandC08(t *testing.T, seed uint64, tier string) []*core.Plan {
 	p.Items = append(p.Items, core.Item{K: "connect", A: 0}, subit)
 	online := true
 	tag := 0
+	ownN := 0
 	n := r.Range(2, 16)
 	for i := 0; i < n; i++ {
-		switch r.Weighted([]int{10, 3, 2, 2, 3, 1, 1}) {
+		switch r.Weighted([]int{10, 3, 2, 2, 3, 1, 1, 2}) {
+		case 7:
+			// the subscriber publishes itself (QoS 2): its packet ids live in a
+			// different id space than the ids of the deliveries it receives, and
+			// both start at 1
+			if online {
+				tag++
+				ownN++
+				p.Items = append(p.Items, core.Item{K: "ownpub", A: ownN, S: Topics[r.Intn(len(Topics))], D: tag})
+			}
 		case 6:
 			// the subscriber connects again while its previous connection is
 			// still up (takeover), clean or not
@@ -177,6 +187,14 @@ func runC08(t *testing.T, p *core.Plan) *core.Result {
 					pb.ID = src.NextID()
 				}
 				src.Send(pb)
+			case "ownpub":
+				if sub.cur != nil && !sub.cur.EOF {
+					pb := packet.NewPublish()
+					pb.ID = packet.ID(it.A)
+					pb.Message = packet.Message{Topic: it.S, QOS: 2, Payload: MsgPayload(it.D, 0)}
+					sub.cur.Send(pb)
+					res.Count("subscriber_own_publishes", 1)
+				}
 			case "ack":
 				if sub.cur != nil {
 					pend := sub.cur.Pending
@@ -318,7 +336,7 @@ func judgeC08(w *World, sub *subscriber, src *Peer, p *core.Plan, res *core.Resu
 				st = &sessState{subs: map[string]int{}}
 				gen++
 			}
-		case c.Call == "Publish" && c.M != nil && c.Err == nil && c.CID == "src":
+		case c.Call == "Publish" && c.M != nil && c.Err == nil && (c.CID == "src" || c.CID == "sub"):
 			best := -1
 			for f, q := range st.subs {
 				if model.Matches(f, c.M.Topic) {
